@@ -44,19 +44,32 @@ def spacesThenDashes (s : Bytes) : Option Nat :=
   let n := spanLen (· == 32) s
   if [45, 45].isPrefixOf (s.drop n) then some n else none
 
-/-- `re.sub(br'^ *--', repl)` (at the very start only) -/
+/-- `s` is `<spaces>--…` or `<spaces>//…` (the alternation `(--|//)`): length of the space run and the marker matched -/
+def spacesThenComment (s : Bytes) : Option (Nat × Bytes) :=
+  let n := spanLen (· == 32) s
+  if [45, 45].isPrefixOf (s.drop n) then some (n, [45, 45])
+  else if [47, 47].isPrefixOf (s.drop n) then some (n, [47, 47])
+  else none
+
+/-- `re.sub(br'^ *--', repl)` (at the very start only; `--` comments only) -/
 def subStartComment (repl : Bytes) (s : Bytes) : Bytes :=
   match spacesThenDashes s with
   | some n => repl ++ s.drop (n + 2)
   | none => s
 
-/-- `re.sub(br'\n *--', b'\n' + ind + b'--')` (every occurrence, left to right, non-overlapping) -/
+/-- `re.sub(br'^ *(--|//)', br'\1')` (at the very start only): the spaces before a leading comment are dropped -/
+def subStartAnyComment (s : Bytes) : Bytes :=
+  match spacesThenComment s with
+  | some (n, _) => s.drop n
+  | none => s
+
+/-- `re.sub(br'\n *(--|//)', b'\n' + ind + br'\1')` (every occurrence, left to right, non-overlapping) -/
 def subLineComment (ind : Bytes) : Bytes → Bytes
   | [] => []
   | b :: rest =>
     if b = 10 then
-      match spacesThenDashes rest with
-      | some n => [10] ++ ind ++ [45, 45] ++ subLineComment ind (rest.drop (n + 2))
+      match spacesThenComment rest with
+      | some (n, m) => [10] ++ ind ++ m ++ subLineComment ind (rest.drop (n + 2))
       | none => b :: subLineComment ind rest
     else b :: subLineComment ind rest
 termination_by s => s.length
@@ -94,7 +107,7 @@ def normRun (width indent : Nat) (atStart atEnd : Bool) (run : Bytes) : Bytes :=
   let s := dropSpacesBeforeLF s
   let s := if !atStart then subStartComment [32, 32, 45, 45] s else s
   let s := subLineComment ind s
-  let s := if atStart then subStartComment [45, 45] s else s
+  let s := if atStart then subStartAnyComment s else s
   let s := subFinalIndent ind s
   let s := if atStart then subAllSpaces s else s
   let s := collapseLF s
